@@ -197,7 +197,7 @@ def split_library(path):
         text = "\n".join(lines[i:k + 1])
         head = lines[j]
         m = re.search(r"\bfn\s+(\w+)", head)
-        ma = re.search(r"assume_specification\s*\[\s*([^\]]+?)\s*\]", head)
+        ma = re.search(r"assume_specification(?:<[^>]*>)?\s*\[\s*(.+?)\s*\]\s*\(", head)
         if ma:
             kind, name = "assume_specification", ma.group(1)
         elif m:
@@ -473,6 +473,54 @@ def rewrite_R3d(text, counts):
     return text
 
 
+def rewrite_R3e(text, counts):
+    """`match E { [L1] => A1, [L2] => A2, .., _ => B }` with literal Li ->
+    `{ let matched_slice = E; if matched_slice.len() == 1 && matched_slice[0] == L1 { A1 } else if .. else { B } }`"""
+    toks = rl.sig(rl.lex(text))
+    for i, t in enumerate(toks):
+        if t.text != "match":
+            continue
+        j = i + 1
+        while j < len(toks) and toks[j].text != "{":
+            if toks[j].text in ("(", "["):
+                j = rl.match_close(toks, j)
+            j += 1
+        if j + 1 >= len(toks) or toks[j + 1].text != "[":
+            continue
+        mclose = rl.match_close(toks, j)
+        E = text[toks[i + 1].pos:toks[j - 1].end]
+        arms, k, ok = [], j + 1, True
+        while k < mclose:
+            if toks[k].text == "[":
+                pc = rl.match_close(toks, k)
+                if pc != k + 2 or toks[k + 1].kind not in (rl.NUM,) or [x.text for x in toks[pc + 1:pc + 3]] != ["=", ">"]:
+                    ok = False
+                    break
+                a_end, nxt = _arm_end(toks, pc + 3)
+                arms.append((toks[k + 1].text, text[toks[pc + 3].pos:toks[a_end - 1].end]))
+                k = nxt
+            elif toks[k].text == "_" and [x.text for x in toks[k + 1:k + 3]] == ["=", ">"]:
+                a_end, nxt = _arm_end(toks, k + 3)
+                arms.append((None, text[toks[k + 3].pos:toks[a_end - 1].end]))
+                k = nxt
+                if k != mclose:
+                    ok = False
+                break
+            else:
+                ok = False
+                break
+        if not ok or len(arms) < 3 or arms[-1][0] is not None:
+            continue
+        new = "{ let matched_slice = %s; " % E
+        for lit, arm in arms[:-1]:
+            new += "if matched_slice.len() == 1 && matched_slice[0] == %s { %s } else " % (lit, arm)
+        new += "{ %s } }" % arms[-1][1]
+        orig = text[t.pos:toks[mclose].end]
+        counts["R3"] = counts.get("R3", 0) + 1
+        return text[:t.pos] + _rw("R3", orig, new) + text[toks[mclose].end:]
+    return text
+
+
 def _depths(toks):
     d = 0
     for x in toks:
@@ -641,10 +689,10 @@ def rewrite_R10(text, key, specs, counts):
     proved for the ORIGINAL expression by the named Kani harness (complete: fixed-size arrays of machine integers)."""
     for sp in specs:
         n = text.count(sp["orig"])
-        if n != 1:
+        if n != sp.get("count", 1):
             raise Undecided("%s: expression %r occurs %d times (lost anchor)" % (key, sp["orig"][:40], n))
         text = text.replace(sp["orig"], _rw("R10", sp["orig"], sp["new"]))
-        counts["R10"] = counts.get("R10", 0) + 1
+        counts["R10"] = counts.get("R10", 0) + n
     return text
 
 
@@ -914,6 +962,9 @@ class Extraction:
         if it.kind == "trait" and it.name in self.cfg.get("keep_traits", {}).get(rel, []):
             self._trait(rel, src, it)
             return
+        if it.kind == "type" and it.name in self.cfg.get("keep_type_aliases", {}).get(rel, []):
+            self.order.append(("type", src[it.kw_start:it.end]))
+            return
         if it.kind in ("use", "mod", "type", "macro_rules", "extern", "trait", "static"):
             return
         if it.kind == "macro_call":
@@ -959,6 +1010,8 @@ class Extraction:
             for a in attrs:
                 # R1: Debug is dropped from derive lists (manual Debug impls are trait impls and are dropped)
                 a2 = re.sub(r"\bDebug\s*,\s*", "", a)
+                if a2 == a and re.match(r"#\[derive\(\s*Debug\s*\)\]$", a):
+                    a2 = ""
                 if a2 != a:
                     c["R1.derive_debug"] = c.get("R1.derive_debug", 0) + 1
                 for dv in self.cfg.get("drop_derives", {}).get(it.name, []):
@@ -991,6 +1044,7 @@ class Extraction:
             t = rewrite_R3(t, c)
             t = rewrite_R3c(t, c)
             t = rewrite_R3d(t, c)
+            t = rewrite_R3e(t, c)
             lifted = []
             try:
                 if key in self.cfg.get("lift_closures", {}):
@@ -1091,7 +1145,8 @@ class Extraction:
         for v in dv:
             m = re.search(r"#\[cfg\([^\]]*\)\]\s*(?:///[^\n]*\n\s*)*" + v + r"\b\s*(\([^)]*\))?\s*,", text)
             m2 = re.search(r"(?:///[^\n]*\n\s*)*#\[cfg\([^\]]*\)\]\s*" + v + r"\b\s*(\([^)]*\))?\s*,", text)
-            mm = m or m2
+            m3 = re.search(r"(?m)^\s*(?:///[^\n]*\n\s*)*" + v + r"\b\s*(\([^)]*\))?\s*,[ \t]*\n", text)
+            mm = m or m2 or m3
             if not mm:
                 raise Undecided("%s: variant %s::%s not found" % (rel, name, v))
             text = text[:mm.start()] + text[mm.end():]
